@@ -1,7 +1,4 @@
 package sim
 
-func CheckMain(args []string) int       { return 2 }
-func ReplayMain(args []string) int      { return 2 }
-func WorkerMain(args []string) int      { return 2 }
 func CrashWorkerMain(args []string) int { return 2 }
 func SelfTestMain(args []string) int    { return 2 }
